@@ -353,6 +353,11 @@ def run(ctx, ck):
                 lits.append(g.qual)
     ck.ob('R-EFFECT.wavelength', 'speed-of-light-literal', sorted(set(lits)) == ['mininec.Mininec.f@setter'],
           m.func('mininec.Mininec.f@setter').loc(), 'functions containing the literal 299.8: %s' % sorted(set(lits)))
+    # which ends are joined must not depend on where the structure is: the matching test is a function of the
+    # distance between two ends only (shared with C12)
+    ck.rule('R-SYM.end-matching', 'wire ends are joined by a test on their distance alone (translation / rotation invariant)')
+    from .C12 import check_end_match_distance
+    check_end_match_distance(ctx, ck, 'R-SYM.end-matching')
     # ---------------------------------------------------------------- D5
     # a decision taken from the sign of a horizontal direction cosine changes when the antenna is turned by
     # 180 degrees about the vertical: tests on direction vectors may ask "is there a horizontal component"
